@@ -13,6 +13,7 @@
 (*                 merged; then regroup (groupPartitionsByBroker(fullReq, failed)) or final fill-in          *)
 EXTENDS Integers, Sequences, FiniteSets, TLC, Json
 CONSTANTS TPs, Backends, Apis, IdModes, MaxAttempts, MaxFaults, MaxDown,
+          ErrCodes,           \* per-partition error codes a broker may answer besides 0 and NOT_LEADER (they are merged like a success)
           CanonOrder,         \* TRUE: the concurrent exchanges of one attempt are explored in one fixed order only (they touch
                               \* disjoint partitions and commute; the properties do not depend on their relative order)
           DevRetryOnTimeout,  \* deviation: produce retries a sub-request whose connection failed after the send (as fetch may)
@@ -22,8 +23,8 @@ CONSTANTS TPs, Backends, Apis, IdModes, MaxAttempts, MaxFaults, MaxDown,
 VARIABLES phase, api, ids, req, route, down, attempt, todo, tried, work, results, reply, recvs, nfault, hist
 vars == <<phase, api, ids, req, route, down, attempt, todo, tried, work, results, reply, recvs, nfault, hist>>
 
-OK == 0   ERR == 3   NL == 6   TO == 7
-Codes == {OK, NL, ERR}
+OK == 0   NL == 6   TO == 7
+Codes == {OK, NL} \cup ErrCodes
 None == "none"
 Up == Backends \ down
 
